@@ -1076,7 +1076,7 @@ func TestVP_C22_crash_points(t *testing.T) {
 	c.Require("nontrivial", "cut-WriteSnapshot", "cut-StartNewRound", "cut-WriteTransaction", "cut-LockUTXOs", "cut-WriteConsensusSnapshot", "nested", "drop-cache",
 		"pledge", "accept", "cut-in-pledge-path", "cut-in-accept-path", "cut-in-accept-path-StartNewRound", "cut-in-accept-path-WriteConsensusSnapshot", "cut-in-pledge-path-WriteSnapshot", "cut-in-pledge-path-WriteConsensusSnapshot")
 	perWorkload := 10
-	kit.SetChecks(kit.N(12, 72))
+	kit.SetChecks(kit.N(12, 60))
 	if kit.Thorough() {
 		perWorkload = 0
 	}
